@@ -287,6 +287,31 @@ func vrRunScenario(t *testing.T, lines []string, out func(string)) {
 			}
 			sc.settle()
 			sc.openSource(s)
+		case "XD":
+			// the target becomes a slow reader: every message takes <ms> to send
+			if h := sc.tgtH[atoi(1)]; h != nil {
+				h.stream.mu.Lock()
+				h.stream.delay = time.Duration(atoi(2)) * time.Millisecond
+				h.stream.mu.Unlock()
+			}
+		case "AA":
+			// the target acknowledges by itself everything it is sent
+			if h := sc.tgtH[atoi(1)]; h != nil {
+				h.stream.mu.Lock()
+				h.stream.autoAck = true
+				h.stream.mu.Unlock()
+			}
+		case "SB":
+			// a burst: <count> single-task batches of source s for target owner, back to back (ids from <first>)
+			s, count, first, owner := atoi(1), atoi(2), atoi64(3), atoi(4)
+			cs := sc.reverse.current(history.ClusterShardID{ClusterID: vrSrcCluster, ShardID: int32(s + 1)})
+			for k := 0; cs != nil && k < count; k++ {
+				id := first + int64(k)
+				task := &replicationv1.ReplicationTask{SourceTaskId: id,
+					RawTaskInfo: &persistencespb.ReplicationTaskInfo{NamespaceId: "verif-ns", WorkflowId: sc.wfFor[owner], RunId: fmt.Sprintf("b%d", id), TaskId: id}}
+				cs.recv <- vfItem[vfResp]{val: &vfResp{Attributes: &adminservice.StreamWorkflowReplicationMessagesResponse_Messages{
+					Messages: &replicationv1.WorkflowReplicationMessages{ExclusiveHighWatermark: id + 1, ReplicationTasks: []*replicationv1.ReplicationTask{task}}}}}
+			}
 		case "E":
 		}
 		sc.settle()
